@@ -111,6 +111,20 @@ impl ScriptStore {
     }
 }
 
+/// A scripted failure takes every variant of `blockstore::Error` in turn (the model knows only "failure": the code must not
+/// treat one kind of failed lookup differently from another).
+fn scripted_error() -> blockstore::Error {
+    static ROT: std::sync::atomic::AtomicUsize = std::sync::atomic::AtomicUsize::new(0);
+    match ROT.fetch_add(1, std::sync::atomic::Ordering::Relaxed) % 6 {
+        0 => blockstore::Error::StoredDataError("scripted".into()),
+        1 => blockstore::Error::CidTooLarge,
+        2 => blockstore::Error::ValueTooLarge,
+        3 => blockstore::Error::ExecutorError("scripted".into()),
+        4 => blockstore::Error::FatalDatabaseError("scripted".into()),
+        _ => blockstore::Error::CidError(blockstore::block::CidError::InvalidMultihashLength(65)),
+    }
+}
+
 fn to64<const S: usize>(cid: &CidGeneric<S>) -> Cid64 {
     Cid64::try_from(cid.to_bytes().as_slice()).expect("cid fits 64")
 }
@@ -120,13 +134,13 @@ impl Blockstore for ScriptStore {
         match self.start(CallKind::Get(to64(cid))).await {
             Release::Hit(d) => Ok(Some(d)),
             Release::Miss => Ok(None),
-            Release::Fail => Err(blockstore::Error::StoredDataError("scripted".into())),
+            Release::Fail => Err(scripted_error()),
         }
     }
 
     async fn put_keyed<const S: usize>(&self, cid: &CidGeneric<S>, data: &[u8]) -> blockstore::Result<()> {
         match self.start(CallKind::PutMany(vec![(to64(cid), data.to_vec())])).await {
-            Release::Fail => Err(blockstore::Error::StoredDataError("scripted".into())),
+            Release::Fail => Err(scripted_error()),
             _ => Ok(()),
         }
     }
@@ -139,7 +153,7 @@ impl Blockstore for ScriptStore {
     {
         let blocks: Vec<(Cid64, Vec<u8>)> = blocks.into_iter().map(|(c, d)| (to64(&c), d.as_ref().to_vec())).collect();
         match self.start(CallKind::PutMany(blocks)).await {
-            Release::Fail => Err(blockstore::Error::StoredDataError("scripted".into())),
+            Release::Fail => Err(scripted_error()),
             _ => Ok(()),
         }
     }
